@@ -20,6 +20,6 @@ block = "<!-- SUMMARY-BEGIN -->\n" + table + "\n<!-- SUMMARY-END -->"
 if "<!-- SUMMARY-BEGIN -->" in s:
     s = re.sub(r"<!-- SUMMARY-BEGIN -->.*?<!-- SUMMARY-END -->", lambda m: block, s, flags=re.S)
 else:
-    s += "\n### 10.6 Per-property summary as built (numbers from the committed quick-tier evidence)\n\n" + block + "\n"
+    s += "\n### 10.7 Per-property summary as built (numbers from the committed quick-tier evidence)\n\n" + block + "\n"
 open(p, "w").write(s)
 print("summary table written")
